@@ -191,6 +191,46 @@ theorem addNulls_values (t t' : Tbl) (cs : List ColDef) (h : addNulls t cs = .ok
         · rw [hget]
           exact scanCol_not_stored t _ (fresh_not_stored t _ (by simp only; omega))
 
+/-- `add_values`, Dataset::merge: the j-th right-hand value column gets field id `max_field_id + 1 + j`, which no data file of
+    the version stores, and scans to the hash join of the key column with the right-hand rows -/
+theorem mergeCols_values (t t' : Tbl) (c : String) (cs : List ColDef) (rows : List Row)
+    (h : mergeCols t c cs rows = .ok t') (j : Nat) (hj : j < cs.length) :
+    ∃ key, findFld t.schema c = some key ∧
+      ∃ fl ∈ t'.schema, fl.name = cs[j].name ∧ fl.id = t.maxFieldId + 1 + j ∧ fl.id ∉ t.fileIds ∧
+        scanCol t' fl.id = (scanCol t key.id).map (joinCell rows j) := by
+  have hj' : j < (mkFlds cs (t.maxFieldId + 1)).length := by rw [mkFlds_length]; exact hj
+  have hget := mkFlds_getElem cs (t.maxFieldId + 1) j hj
+  have hjm : j < ((mkFlds cs (t.maxFieldId + 1)).map (·.id)).length := by simpa using hj'
+  have hidx : ((mkFlds cs (t.maxFieldId + 1)).map (·.id))[j]'hjm = t.maxFieldId + 1 + j := by
+    simp [hget]
+  simp only [mergeCols] at h
+  split at h
+  · cases h
+  · split at h
+    · cases h
+    · rename_i key hkey
+      split at h
+      · cases h
+      · split at h
+        · cases h
+        · cases h
+          refine ⟨key, hkey, _, List.mem_append_right _ (List.getElem_mem hj'), by rw [hget], by rw [hget], ?_, ?_⟩
+          · rw [hget]; exact fresh_not_stored t _ (by simp only; omega)
+          · rw [hget]
+            simp only [scanCol]
+            rw [← map_flatMap']
+            refine flatMap_map_congr _ _ _ _ (fun f hf => ?_)
+            have hc := column_added f (fun f => ((mkFlds cs (t.maxFieldId + 1)).map (·.id)).zip
+                ((List.range cs.length).map fun j => (f.column key.id).map (joinCell rows j))) _
+              ((List.range cs.length).map fun j => (f.column key.id).map (joinCell rows j)) rfl
+              (mkFlds_ids_nodup _ _) j hjm (by simpa using hj) (by
+                rw [hidx]
+                exact fun hm => fresh_not_stored t _ (by omega) (mem_fileIds hf hm))
+            rw [hidx] at hc
+            show keepLive f.dels 0 ((addFile _ f).column _) = _
+            rw [hc]
+            simp only [List.getElem_map, List.getElem_range, keepLive_map, Frag.liveCol]
+
 theorem colOf_append (a b : List Row) (j : Nat) : colOf (a ++ b) j = colOf a j ++ colOf b j := by
   simp [colOf]
 
